@@ -6,9 +6,13 @@ from ..core import Check, derive_seed
 from ..model import Expr, In, Ref, Program, Step
 
 
-def base_program(rng):
-    shape = rng.choice(["chain", "diamond", "fan_in", "wait_for", "enabled", "foreach", "foreach", "foreach_after", "random_dag", "deploy_expr", "functions", "functions",
-                        "fault_by_input", "fault_by_input", "oneof_ordered", "deploy_by_input"])
+def base_program(rng, force=None):
+    shape = force or rng.choice(["chain", "diamond", "fan_in", "wait_for", "enabled", "foreach", "foreach", "foreach_after", "random_dag", "deploy_expr", "functions", "functions",
+                        "fault_by_input", "fault_by_input", "oneof_ordered", "deploy_by_input", "legacy_output"])
+    if shape == "legacy_output":
+        # the deprecated single `output:` form (rewritten into `outputs` whenever the text is prepared)
+        steps, outs = gen.shape_chain(rng, rng.choice([1, 2]))
+        return shape, steps, {"success": outs["success"]}
     if shape == "deploy_by_input":
         # the deployment configuration of a step comes from the run's input: each run deploys (or fails to) on its own terms
         a = gen.plugin_step("a", Expr(In("tag")))
@@ -66,6 +70,8 @@ def run(check):
         rng = random.Random(derive_seed(check.seed, "c14", i))
         shape, steps, outs = base_program(rng)
         prog = Program(steps, outs, gen.BASE_INPUT)
+        if shape == "legacy_output":
+            prog.legacy_output = outs["success"]
         N = rng.choice([2, 2, 4, 8, 16] if check.quick() else [2, 4, 8, 16, 32])
         mode = rng.choice(["sequential", "overlapped", "overlapped", "mixed", "overlapped+cancel"])
         scripts = gen.make_scripts(steps, {})
@@ -137,8 +143,10 @@ def run(check):
     papi = []
     for i in range(check.pick(20, 150)):
         rng = random.Random(derive_seed(check.seed, "c14-papi", i))
-        shape, steps, outs = base_program(rng)
+        shape, steps, outs = base_program(rng, force="legacy_output" if i % 4 == 0 else None)
         prog = Program(steps, outs, gen.BASE_INPUT)
+        if shape == "legacy_output":
+            prog.legacy_output = outs["success"]
         scripts = gen.make_scripts(steps, {})
         inp = {"tag": "P%d" % i, "n": i + 1}
         if any(s.kind == "foreach" for s in steps):
